@@ -803,4 +803,780 @@ theorem ag_genReadAnswers (st : GenSt) (j : Nat) (f : Nat) (I : Inbox) (hj : j <
                       rw [h, ag_rep0]
                       simp
 
+/-! ### (5) the loops over the senders -/
+
+theorem ag_getRow_set (C : List (List Int)) (j k : Nat) (x : List Int) :
+    getRow (C.set j x) k = if j = k ∧ k < C.length then x else getRow C k := by
+  unfold getRow
+  exact ag_getD_set C j k x []
+
+theorem ag_getI_set (l : List Int) (j k : Nat) (x : Int) :
+    getI (l.set j x) k = if j = k ∧ k < l.length then x else getI l k := by
+  unfold getI
+  exact ag_getD_set l j k x 0
+
+theorem ag_getN_set (l : List Nat) (j k : Nat) (x : Nat) :
+    getN (l.set j x) k = if j = k ∧ k < l.length then x else getN l k := by
+  unfold getN
+  exact ag_getD_set l j k x 0
+
+/-- step 1(b), the commitments: lengths -/
+theorem ag_genReadC_glob (st : GenSt) (L : List Nat) (I : Inbox) (hI : ∀ j ∈ L, j < I.b.length)
+    (C : List (List Int)) (cm : List Nat) :
+    (genReadC G st L I C cm).1.b.length = I.b.length ∧ (genReadC G st L I C cm).1.p = I.p ∧
+    (genReadC G st L I C cm).2.1.length = C.length := by
+  induction L generalizing I C cm with
+  | nil => simp [genReadC]
+  | cons j rest ih =>
+    unfold genReadC
+    by_cases hji : j = st.i
+    · simp only [hji, if_true]
+      exact ih I (fun k hk => hI k (List.mem_cons_of_mem _ hk)) C cm
+    · simp only [hji, if_false]
+      rw [ag_readElems none j (st.t + 1) I (hI j (by simp))]
+      simp only
+      have := ih (setB I j (reS G none (st.t + 1) (bsOf I j) [] false).2.1)
+        (fun k hk => by simpa using hI k (List.mem_cons_of_mem _ hk))
+        (C.set j (padRow st.t (reS G none (st.t + 1) (bsOf I j) [] false).2.2))
+        (if (reS G none (st.t + 1) (bsOf I j) [] false).1 = true then cm ++ [j] else cm)
+      simpa using this
+
+/-- step 1(b), the commitments: a sender that is not read -/
+theorem ag_genReadC_frame (st : GenSt) (k : Nat) (L : List Nat) (I : Inbox) (hI : ∀ j ∈ L, j < I.b.length)
+    (C : List (List Int)) (cm : List Nat) (hk : k ∉ L ∨ k = st.i) :
+    bsOf (genReadC G st L I C cm).1 k = bsOf I k ∧ getRow (genReadC G st L I C cm).2.1 k = getRow C k ∧
+    (k ∈ (genReadC G st L I C cm).2.2 ↔ k ∈ cm) := by
+  induction L generalizing I C cm with
+  | nil => simp [genReadC]
+  | cons j rest ih =>
+    unfold genReadC
+    have hk' : k ∉ rest ∨ k = st.i := by
+      rcases hk with h | h
+      · exact Or.inl (fun hh => h (List.mem_cons_of_mem _ hh))
+      · exact Or.inr h
+    by_cases hji : j = st.i
+    · simp only [hji, if_true]
+      exact ih I (fun k hk => hI k (List.mem_cons_of_mem _ hk)) C cm hk'
+    · simp only [hji, if_false]
+      rw [ag_readElems none j (st.t + 1) I (hI j (by simp))]
+      simp only
+      have hkj : j ≠ k := by
+        rintro rfl
+        rcases hk with h | h
+        · exact h (by simp)
+        · exact hji h
+      obtain ⟨h1, h2, h3⟩ := ih (setB I j (reS G none (st.t + 1) (bsOf I j) [] false).2.1)
+        (fun k hk => by simpa using hI k (List.mem_cons_of_mem _ hk))
+        (C.set j (padRow st.t (reS G none (st.t + 1) (bsOf I j) [] false).2.2))
+        (if (reS G none (st.t + 1) (bsOf I j) [] false).1 = true then cm ++ [j] else cm) hk'
+      refine ⟨by rw [h1, ag_bsOf_setB_ne _ _ _ _ hkj], by rw [h2, ag_getRow_set]; simp [hkj], ?_⟩
+      rw [h3]
+      split
+      · simp [List.mem_append, Ne.symm hkj]
+      · rfl
+
+/-- step 1(b), the commitments: a sender that is read -/
+theorem ag_genReadC_hit (st : GenSt) (k : Nat) (L : List Nat) (hL : L.Nodup) (I : Inbox)
+    (hI : ∀ j ∈ L, j < I.b.length) (C : List (List Int)) (cm : List Nat) (hk : k ∈ L) (hki : k ≠ st.i) :
+    bsOf (genReadC G st L I C cm).1 k = (reS G none (st.t + 1) (bsOf I k) [] false).2.1 ∧
+    (k < C.length → getRow (genReadC G st L I C cm).2.1 k =
+      padRow st.t (reS G none (st.t + 1) (bsOf I k) [] false).2.2) ∧
+    (k ∈ (genReadC G st L I C cm).2.2 ↔ k ∈ cm ∨ (reS G none (st.t + 1) (bsOf I k) [] false).1 = true) := by
+  induction L generalizing I C cm with
+  | nil => simp at hk
+  | cons j rest ih =>
+    have hnd := List.nodup_cons.mp hL
+    unfold genReadC
+    by_cases hji : j = st.i
+    · simp only [hji, if_true]
+      have hk2 : k ∈ rest := by
+        rcases List.mem_cons.mp hk with h | h
+        · exact absurd (h.trans hji) hki
+        · exact h
+      exact ih hnd.2 I (fun k hk => hI k (List.mem_cons_of_mem _ hk)) C cm hk2
+    · simp only [hji, if_false]
+      rw [ag_readElems none j (st.t + 1) I (hI j (by simp))]
+      simp only
+      have hI' : ∀ k ∈ rest, k < (setB I j (reS G none (st.t + 1) (bsOf I j) [] false).2.1).b.length :=
+        fun k hk => by simpa using hI k (List.mem_cons_of_mem _ hk)
+      rcases List.mem_cons.mp hk with h | h
+      · subst h
+        obtain ⟨h1, h2, h3⟩ := ag_genReadC_frame (G := G) st k rest
+          (setB I k (reS G none (st.t + 1) (bsOf I k) [] false).2.1) hI'
+          (C.set k (padRow st.t (reS G none (st.t + 1) (bsOf I k) [] false).2.2))
+          (if (reS G none (st.t + 1) (bsOf I k) [] false).1 = true then cm ++ [k] else cm) (Or.inl hnd.1)
+        refine ⟨by rw [h1, ag_bsOf_setB_self _ _ _ (hI k (by simp))], ?_, ?_⟩
+        · intro hkC
+          rw [h2, ag_getRow_set]
+          simp [hkC]
+        · rw [h3]
+          split
+          · rename_i hc
+            simp [hc]
+          · rename_i hc
+            simp [hc]
+      · have hkj : j ≠ k := by
+          rintro rfl
+          exact hnd.1 h
+        obtain ⟨h1, h2, h3⟩ := ih hnd.2 (setB I j (reS G none (st.t + 1) (bsOf I j) [] false).2.1) hI'
+          (C.set j (padRow st.t (reS G none (st.t + 1) (bsOf I j) [] false).2.2))
+          (if (reS G none (st.t + 1) (bsOf I j) [] false).1 = true then cm ++ [j] else cm) h
+        rw [ag_bsOf_setB_ne _ _ _ _ hkj] at h1 h2 h3
+        refine ⟨h1, ?_, ?_⟩
+        · intro hkC
+          exact h2 (by simpa using hkC)
+        · rw [h3]
+          split
+          · simp [List.mem_append, Ne.symm hkj]
+          · rfl
+
+/-- one sender's pair of private values (step 1(b)): the values stored, whether the sender is
+    complained about, the rest of the stream -/
+def shOne (q : Int) (l : List Int) : Option Int × Option Int × Bool × List Int :=
+  match l with
+  | [] => (none, none, true, [])
+  | v :: r =>
+    match r with
+    | [] => (some (if absGe v q then 0 else v), none, true, [])
+    | w :: r2 => (some (if absGe v q then 0 else v), some (if absGe w q then 0 else w),
+        absGe v q || absGe w q, r2)
+
+def setO (l : List Int) (j : Nat) (o : Option Int) : List Int :=
+  match o with
+  | none => l
+  | some v => l.set j v
+
+theorem ag_genReadShares_cons (q : Int) (st : GenSt) (j : Nat) (rest : List Nat) (I : Inbox)
+    (hj : j < I.p.length) (hji : j ≠ st.i) (s sp : List Int) (cm : List Nat) :
+    genReadShares q st (j :: rest) I s sp cm =
+      genReadShares q st rest (setP I j (shOne q (psOf I j)).2.2.2) (setO s j (shOne q (psOf I j)).1)
+        (setO sp j (shOne q (psOf I j)).2.1) (if (shOne q (psOf I j)).2.2.1 = true then cm ++ [j] else cm) := by
+  rw [genReadShares]
+  simp only [hji, if_false]
+  rw [ag_popP]
+  cases h1 : psOf I j with
+  | nil =>
+    have := ag_setP_self I j
+    rw [h1] at this
+    simp [shOne, setO, this]
+  | cons v r =>
+    simp only [List.head?_cons, List.tail_cons]
+    rw [ag_popP, ag_psOf_setP_self I j r hj, ag_setP_setP]
+    cases r with
+    | nil =>
+      cases hv : absGe v q <;> simp [shOne, setO, hv]
+    | cons w r2 =>
+      cases hv : absGe v q <;> cases hw : absGe w q <;> simp [shOne, setO, hv, hw]
+
+def InR (q : Int) (l : List Int) : Prop := ∀ x ∈ l, x.natAbs < q.natAbs
+
+theorem ag_absGe_range (q : Int) (hq : 0 < q) (v : Int) : (if absGe v q then 0 else v).natAbs < q.natAbs := by
+  unfold absGe
+  by_cases h : q.natAbs ≤ v.natAbs
+  · simp [h]; omega
+  · simp [h]; omega
+
+theorem ag_InR_set (q : Int) (l : List Int) (j : Nat) (v : Int) (hl : InR q l) (hv : v.natAbs < q.natAbs) :
+    InR q (l.set j v) := by
+  intro x hx
+  rcases List.mem_or_eq_of_mem_set hx with h | h
+  · exact hl x h
+  · rw [h]; exact hv
+
+theorem ag_InR_setO_shOne (q : Int) (hq : 0 < q) (l : List Int) (j : Nat) (ps : List Int) (hl : InR q l) :
+    InR q (setO l j (shOne q ps).1) ∧ InR q (setO l j (shOne q ps).2.1) := by
+  unfold shOne
+  cases ps with
+  | nil => exact ⟨hl, hl⟩
+  | cons v r =>
+    cases r with
+    | nil => exact ⟨ag_InR_set q l j _ hl (ag_absGe_range q hq v), hl⟩
+    | cons w r2 =>
+      exact ⟨ag_InR_set q l j _ hl (ag_absGe_range q hq v), ag_InR_set q l j _ hl (ag_absGe_range q hq w)⟩
+
+theorem ag_setO_length (l : List Int) (j : Nat) (o : Option Int) : (setO l j o).length = l.length := by
+  cases o <;> simp [setO]
+
+theorem ag_getI_setO_ne (l : List Int) (j k : Nat) (o : Option Int) (h : j ≠ k) : getI (setO l j o) k = getI l k := by
+  cases o with
+  | none => rfl
+  | some v => simp [setO, ag_getI_set, h]
+
+/-- step 1(b), the shares: broadcast streams untouched, lengths, ranges -/
+theorem ag_genReadShares_glob (q : Int) (hq : 0 < q) (st : GenSt) (L : List Nat) (I : Inbox)
+    (hI : ∀ j ∈ L, j < I.p.length) (s sp : List Int) (cm : List Nat) :
+    (genReadShares q st L I s sp cm).1.b = I.b ∧
+    (genReadShares q st L I s sp cm).2.1.length = s.length ∧
+    (genReadShares q st L I s sp cm).2.2.1.length = sp.length ∧
+    (InR q s → InR q (genReadShares q st L I s sp cm).2.1) ∧
+    (InR q sp → InR q (genReadShares q st L I s sp cm).2.2.1) := by
+  induction L generalizing I s sp cm with
+  | nil => simp [genReadShares]
+  | cons j rest ih =>
+    by_cases hji : j = st.i
+    · rw [genReadShares]
+      simp only [hji, if_true]
+      exact ih I (fun k hk => hI k (List.mem_cons_of_mem _ hk)) s sp cm
+    · rw [ag_genReadShares_cons q st j rest I (hI j (by simp)) hji]
+      obtain ⟨h1, h2, h3, h4, h5⟩ := ih (setP I j (shOne q (psOf I j)).2.2.2)
+        (fun k hk => by simpa using hI k (List.mem_cons_of_mem _ hk))
+        (setO s j (shOne q (psOf I j)).1) (setO sp j (shOne q (psOf I j)).2.1)
+        (if (shOne q (psOf I j)).2.2.1 = true then cm ++ [j] else cm)
+      refine ⟨by rw [h1]; rfl, by rw [h2, ag_setO_length], by rw [h3, ag_setO_length], ?_, ?_⟩
+      · intro hs
+        exact h4 (ag_InR_setO_shOne q hq s j _ hs).1
+      · intro hs
+        exact h5 (ag_InR_setO_shOne q hq sp j _ hs).2
+
+/-- step 1(b), the shares: a sender that is not read -/
+theorem ag_genReadShares_frame (q : Int) (st : GenSt) (k : Nat) (L : List Nat) (I : Inbox)
+    (hI : ∀ j ∈ L, j < I.p.length) (s sp : List Int) (cm : List Nat) (hk : k ∉ L ∨ k = st.i) :
+    getI (genReadShares q st L I s sp cm).2.1 k = getI s k ∧
+    getI (genReadShares q st L I s sp cm).2.2.1 k = getI sp k ∧
+    (k ∈ (genReadShares q st L I s sp cm).2.2.2 ↔ k ∈ cm) := by
+  induction L generalizing I s sp cm with
+  | nil => simp [genReadShares]
+  | cons j rest ih =>
+    have hk' : k ∉ rest ∨ k = st.i := by
+      rcases hk with h | h
+      · exact Or.inl (fun hh => h (List.mem_cons_of_mem _ hh))
+      · exact Or.inr h
+    by_cases hji : j = st.i
+    · rw [genReadShares]
+      simp only [hji, if_true]
+      exact ih I (fun k hk => hI k (List.mem_cons_of_mem _ hk)) s sp cm hk'
+    · rw [ag_genReadShares_cons q st j rest I (hI j (by simp)) hji]
+      have hkj : j ≠ k := by
+        rintro rfl
+        rcases hk with h | h
+        · exact h (by simp)
+        · exact hji h
+      obtain ⟨h1, h2, h3⟩ := ih (setP I j (shOne q (psOf I j)).2.2.2)
+        (fun k hk => by simpa using hI k (List.mem_cons_of_mem _ hk))
+        (setO s j (shOne q (psOf I j)).1) (setO sp j (shOne q (psOf I j)).2.1)
+        (if (shOne q (psOf I j)).2.2.1 = true then cm ++ [j] else cm) hk'
+      refine ⟨by rw [h1, ag_getI_setO_ne _ _ _ _ hkj], by rw [h2, ag_getI_setO_ne _ _ _ _ hkj], ?_⟩
+      rw [h3]
+      split
+      · simp [List.mem_append, Ne.symm hkj]
+      · rfl
+
+/-- step 1(b), the shares: a sender whose two values arrived and are in range -/
+theorem ag_genReadShares_hit (q : Int) (st : GenSt) (k : Nat) (L : List Nat) (hL : L.Nodup) (I : Inbox)
+    (hI : ∀ j ∈ L, j < I.p.length) (s sp : List Int) (cm : List Nat) (hk : k ∈ L) (hki : k ≠ st.i)
+    (v w : Int) (hp : psOf I k = [v, w]) (hv : absGe v q = false) (hw : absGe w q = false)
+    (hks : k < s.length) (hksp : k < sp.length) :
+    getI (genReadShares q st L I s sp cm).2.1 k = v ∧
+    getI (genReadShares q st L I s sp cm).2.2.1 k = w ∧
+    (k ∈ (genReadShares q st L I s sp cm).2.2.2 ↔ k ∈ cm) := by
+  induction L generalizing I s sp cm with
+  | nil => simp at hk
+  | cons j rest ih =>
+    have hnd := List.nodup_cons.mp hL
+    by_cases hji : j = st.i
+    · rw [genReadShares]
+      simp only [hji, if_true]
+      have hk2 : k ∈ rest := by
+        rcases List.mem_cons.mp hk with h | h
+        · exact absurd (h.trans hji) hki
+        · exact h
+      exact ih hnd.2 I (fun k hk => hI k (List.mem_cons_of_mem _ hk)) s sp cm hk2 hp hks hksp
+    · rw [ag_genReadShares_cons q st j rest I (hI j (by simp)) hji]
+      have hI' : ∀ k ∈ rest, k < (setP I j (shOne q (psOf I j)).2.2.2).p.length :=
+        fun k hk => by simpa using hI k (List.mem_cons_of_mem _ hk)
+      rcases List.mem_cons.mp hk with h | h
+      · subst h
+        obtain ⟨h1, h2, h3⟩ := ag_genReadShares_frame q st k rest _ hI'
+          (setO s k (shOne q (psOf I k)).1) (setO sp k (shOne q (psOf I k)).2.1)
+          (if (shOne q (psOf I k)).2.2.1 = true then cm ++ [k] else cm) (Or.inl hnd.1)
+        rw [h1, h2, h3, hp]
+        simp [shOne, hv, hw, setO, ag_getI_set, hks, hksp]
+      · have hkj : j ≠ k := by
+          rintro rfl
+          exact hnd.1 h
+        obtain ⟨h1, h2, h3⟩ := ih hnd.2 (setP I j (shOne q (psOf I j)).2.2.2) hI'
+          (setO s j (shOne q (psOf I j)).1) (setO sp j (shOne q (psOf I j)).2.1)
+          (if (shOne q (psOf I j)).2.2.1 = true then cm ++ [j] else cm) h
+          (by rw [ag_psOf_setP_ne _ _ _ _ hkj]; exact hp)
+          (by rw [ag_setO_length]; exact hks) (by rw [ag_setO_length]; exact hksp)
+        refine ⟨h1, h2, ?_⟩
+        rw [h3]
+        split
+        · simp [List.mem_append, Ne.symm hkj]
+        · rfl
+
+/-! arithmetic never fails on the values the readers feed to it -/
+
+theorem ag_commitProdFrom_total (hG : ValidGrp G) (x k : Nat) (cs : List Int) (acc : Int) :
+    ∃ r, commitProdFrom G.p x k cs acc = .ok r := by
+  induction cs generalizing k acc with
+  | nil => exact ⟨acc, rfl⟩
+  | cons c cs ih =>
+    obtain ⟨b, hb, -⟩ := @mpzPowm_nonneg (gGrp G) ‹Fact (Nat.Prime G.p.natAbs)› hG.vg c ((x : Int) ^ k)
+      (by positivity)
+    have hb' : mpzPowm c ((x : Int) ^ k) G.p = .ok b := hb
+    obtain ⟨r, hr⟩ := ih (k + 1) (acc * b % G.p)
+    exact ⟨r, by simp only [commitProdFrom, hb']; exact hr⟩
+
+theorem ag_commitProd_total (hG : ValidGrp G) (x : Nat) (cs : List Int) : ∃ r, commitProd G.p x cs = .ok r :=
+  ag_commitProdFrom_total hG x 0 cs 1
+
+theorem ag_pedF_total (hG : ValidGrp G) (v w : Int) :
+    ∃ l, pedF G (if absGe v G.q then 0 else v) (if absGe w G.q then 0 else w) = .ok l := by
+  obtain ⟨l, hl, -⟩ := pedF_val hG _ _ (ag_absGe_range G.q hG.vg.q_pos v) (ag_absGe_range G.q hG.vg.q_pos w)
+  exact ⟨l, hl⟩
+
+theorem ag_raS_total (hG : ValidGrp G) (n : Nat) (Cj : List Int) (f : Nat) (s : List (Tag × Int)) :
+    ∃ r, raS G n Cj f s = .ok r := by
+  induction f generalizing s with
+  | zero => exact ⟨_, rfl⟩
+  | succ f ih =>
+    unfold raS
+    rcases popS none s with ⟨_ | w, s1⟩
+    · exact ⟨_, rfl⟩
+    · simp only
+      split
+      · exact ⟨_, rfl⟩
+      · rcases popS none s1 with ⟨_ | foo0, s2⟩
+        · exact ⟨_, rfl⟩
+        · simp only
+          rcases popS none s2 with ⟨_ | bar0, s3⟩
+          · exact ⟨_, rfl⟩
+          · simp only
+            obtain ⟨l, hl⟩ := ag_pedF_total hG foo0 bar0
+            obtain ⟨r, hr⟩ := ag_commitProd_total hG (getUi w + 1) Cj
+            obtain ⟨r3, hr3⟩ := ih s3
+            rw [hl, hr, hr3]
+            exact ⟨_, rfl⟩
+
+/-- whether the answers of a dealer (stream `s`, commitments `Cj`) put it on the complaint list -/
+def raBad (G : Grp) (n : Nat) (Cj : List Int) (s : List (Tag × Int)) : Bool :=
+  match raS G n Cj (n + 1) s with
+  | .ok r => decide (0 < r.1)
+  | .error _ => true
+
+/-- step 1(d): the loop over the dealers -/
+theorem ag_genResolveGo (hG : ValidGrp G) (st : GenSt) (L : List Nat) (hL : L.Nodup) (I : Inbox)
+    (hI : ∀ j ∈ L, j < I.b.length) (s sp : List Int) (cm : List Nat) :
+    ∃ I' s' sp' cm', genResolveGo G st L I s sp cm = .ok (I', s', sp', cm') ∧
+      ∀ k, k ∈ cm' ↔ k ∈ cm ∨ (k ∈ L ∧ (st.t < getN st.cnt k ∨
+        (k ≠ st.i ∧ raBad G st.n (getRow st.C k) (bsOf I k) = true))) := by
+  induction L generalizing I s sp cm with
+  | nil => exact ⟨I, s, sp, cm, rfl, by simp⟩
+  | cons j rest ih =>
+    have hnd := List.nodup_cons.mp hL
+    have hIr : ∀ k ∈ rest, k < I.b.length := fun k hk => hI k (List.mem_cons_of_mem _ hk)
+    unfold genResolveGo
+    by_cases hc : getN st.cnt j > st.t
+    · simp only [hc, if_true]
+      obtain ⟨I', s', sp', cm', h, hm⟩ := ih hnd.2 I hIr s sp (cm ++ [j])
+      refine ⟨I', s', sp', cm', h, ?_⟩
+      intro k
+      rw [hm k]
+      by_cases hkj : k = j
+      · subst hkj
+        simp [hc]
+      · simp [hkj]
+    · simp only [hc, if_false]
+      by_cases hji : j = st.i
+      · simp only [hji, if_true]
+        obtain ⟨I', s', sp', cm', h, hm⟩ := ih hnd.2 I hIr s sp cm
+        refine ⟨I', s', sp', cm', h, ?_⟩
+        intro k
+        rw [hm k]
+        by_cases hkj : k = j
+        · subst hkj
+          have : k ∉ rest := hnd.1
+          have hc' : ¬ st.t < getN st.cnt st.i := by rw [← hji]; exact hc
+          simp [hji, hc']
+        · have hkj' : ¬ k = st.i := fun e => hkj (e.trans hji.symm)
+          simp [hkj']
+      · simp only [hji, if_false]
+        obtain ⟨⟨bad, rst⟩, hr⟩ := ag_raS_total hG st.n (getRow st.C j) (st.n + 1) (bsOf I j)
+        have hra := ag_genReadAnswers (G := G) st j (st.n + 1) I (hI j (by simp)) s sp cm
+        rw [hr] at hra
+        obtain ⟨s1, sp1, hra⟩ := hra
+        obtain ⟨I', s', sp', cm', h, hm⟩ := ih hnd.2 (setB I j rst)
+          (fun k hk => by simpa using hIr k hk) s1 sp1 (cm ++ List.replicate bad j)
+        refine ⟨I', s', sp', cm', ?_, ?_⟩
+        · simp only [hra, bind, Except.bind]
+          exact h
+        · intro k
+          rw [hm k]
+          by_cases hkj : k = j
+          · subst hkj
+            have : k ∉ rest := hnd.1
+            simp [this, hc, hji, raBad, hr, List.mem_replicate]
+            rw [Nat.pos_iff_ne_zero]
+          · have hb : bsOf (setB I j rst) k = bsOf I k := ag_bsOf_setB_ne _ _ _ _ (Ne.symm hkj)
+            simp [hkj, hb, List.mem_replicate]
+
+/-- the test of equation (4) for dealer `k` -/
+def chk4 (G : Grp) (i : Nat) (C : List (List Int)) (s sp : List Int) (k : Nat) : Bool :=
+  match pedS G (getI s k) (getI sp k), commitProd G.p (i + 1) (getRow C k) with
+  | .ok lhs, .ok rhs => lhs.2 != rhs
+  | _, _ => true
+
+theorem ag_getI_InR (q : Int) (hq : 0 < q) (l : List Int) (hl : InR q l) (k : Nat) : (getI l k).natAbs < q.natAbs := by
+  unfold getI
+  by_cases hk : k < l.length
+  · rw [List.getD_eq_getElem _ _ hk]
+    exact hl _ (List.getElem_mem hk)
+  · rw [List.getD_eq_default _ _ (by omega)]
+    simp; omega
+
+/-- step 1(b), equation (4): the loop over the dealers -/
+theorem ag_genCheck4 (hG : ValidGrp G) (st : GenSt) (C : List (List Int)) (s sp : List Int)
+    (hs : InR G.q s) (hsp : InR G.q sp) (L : List Nat) (gs : List Int) (cm : List Nat) :
+    ∃ gs' cm', genCheck4 G st C s sp L gs cm = .ok (gs', cm') ∧
+      ∀ k, k ∈ cm' ↔ k ∈ cm ∨ (k ∈ L ∧ chk4 G st.i C s sp k = true) := by
+  induction L generalizing gs cm with
+  | nil => exact ⟨gs, cm, rfl, by simp⟩
+  | cons j rest ih =>
+    obtain ⟨a, l, hped, -⟩ := pedS_val hG (getI s j) (getI sp j)
+      (ag_getI_InR G.q hG.vg.q_pos s hs j) (ag_getI_InR G.q hG.vg.q_pos sp hsp j)
+    obtain ⟨r, hr⟩ := ag_commitProd_total hG (st.i + 1) (getRow C j)
+    obtain ⟨gs', cm', h, hm⟩ := ih (gs.set j a) (if (l != r) = true then cm ++ [j] else cm)
+    refine ⟨gs', cm', ?_, ?_⟩
+    · unfold genCheck4
+      simp only [hped, hr, bind, Except.bind]
+      exact h
+    · intro k
+      rw [hm k]
+      by_cases hkj : k = j
+      · subst hkj
+        by_cases hlr : (l != r) = true
+        · simp [chk4, hped, hr, hlr]
+        · simp [chk4, hped, hr, hlr]
+      · split <;> simp [hkj]
+
+/-! the complaint counters -/
+
+theorem ag_bumpL_length (cnt ws : List Nat) : (bumpL cnt ws).length = cnt.length := by
+  induction ws generalizing cnt with
+  | nil => rfl
+  | cons w ws ih =>
+    simp only [bumpL, List.foldl_cons] at ih ⊢
+    rw [ih]
+    simp
+
+theorem ag_bumpL_getN (cnt ws : List Nat) (x : Nat) (hx : x < cnt.length) :
+    getN (bumpL cnt ws) x = getN cnt x + ws.count x := by
+  induction ws generalizing cnt with
+  | nil => simp [bumpL]
+  | cons w ws ih =>
+    have h := ih (cnt.set w (getN cnt w + 1)) (by simpa using hx)
+    simp only [bumpL, List.foldl_cons] at h ⊢
+    rw [h, ag_getN_set, List.count_cons]
+    by_cases hwx : w = x
+    · subst hwx
+      simp [hx]
+      omega
+    · simp [hwx]
+
+def rcNews (n : Nat) (s : List (Tag × Int)) : List Nat := (rcS n (n + 1) 0 [] s).1
+def rcBad (n : Nat) (s : List (Tag × Int)) : Bool := decide (0 < (rcS n (n + 1) 0 [] s).2.1)
+def rcRest (n : Nat) (s : List (Tag × Int)) : List (Tag × Int) := (rcS n (n + 1) 0 [] s).2.2
+
+theorem ag_genCollectGo_cons (st : GenSt) (j : Nat) (rest : List Nat) (I : Inbox) (hj : j < I.b.length)
+    (hji : j ≠ st.i) (cnt cf cm : List Nat) :
+    genCollectGo st (j :: rest) I cnt cf cm =
+      genCollectGo st rest (setB I j (rcRest st.n (bsOf I j))) (bumpL cnt (rcNews st.n (bsOf I j)))
+        (cf ++ ((rcNews st.n (bsOf I j)).filter (fun w => w = st.i)).map (fun _ => j))
+        (cm ++ List.replicate (rcS st.n (st.n + 1) 0 [] (bsOf I j)).2.1 j) := by
+  rw [genCollectGo]
+  simp only [hji, if_false]
+  rw [ag_genReadComplaints st j (st.n + 1) 0 [] I hj]
+  rfl
+
+/-- step 1(c): lengths -/
+theorem ag_genCollectGo_glob (st : GenSt) (L : List Nat) (I : Inbox) (hI : ∀ j ∈ L, j < I.b.length)
+    (cnt cf cm : List Nat) :
+    (genCollectGo st L I cnt cf cm).1.b.length = I.b.length ∧ (genCollectGo st L I cnt cf cm).1.p = I.p ∧
+    (genCollectGo st L I cnt cf cm).2.1.length = cnt.length := by
+  induction L generalizing I cnt cf cm with
+  | nil => simp [genCollectGo]
+  | cons j rest ih =>
+    by_cases hji : j = st.i
+    · rw [genCollectGo]
+      simp only [hji, if_true]
+      exact ih I (fun k hk => hI k (List.mem_cons_of_mem _ hk)) cnt cf cm
+    · rw [ag_genCollectGo_cons st j rest I (hI j (by simp)) hji]
+      obtain ⟨h1, h2, h3⟩ := ih (setB I j (rcRest st.n (bsOf I j)))
+        (fun k hk => by simpa using hI k (List.mem_cons_of_mem _ hk))
+        (bumpL cnt (rcNews st.n (bsOf I j)))
+        (cf ++ ((rcNews st.n (bsOf I j)).filter (fun w => w = st.i)).map (fun _ => j))
+        (cm ++ List.replicate (rcS st.n (st.n + 1) 0 [] (bsOf I j)).2.1 j)
+      exact ⟨by rw [h1]; simp, by rw [h2]; rfl, by rw [h3, ag_bumpL_length]⟩
+
+/-- step 1(c): a sender that is not read -/
+theorem ag_genCollectGo_frame (st : GenSt) (k : Nat) (L : List Nat) (I : Inbox) (hI : ∀ j ∈ L, j < I.b.length)
+    (cnt cf cm : List Nat) (hk : k ∉ L ∨ k = st.i) :
+    bsOf (genCollectGo st L I cnt cf cm).1 k = bsOf I k ∧
+    (k ∈ (genCollectGo st L I cnt cf cm).2.2.2 ↔ k ∈ cm) := by
+  induction L generalizing I cnt cf cm with
+  | nil => simp [genCollectGo]
+  | cons j rest ih =>
+    have hk' : k ∉ rest ∨ k = st.i := by
+      rcases hk with h | h
+      · exact Or.inl (fun hh => h (List.mem_cons_of_mem _ hh))
+      · exact Or.inr h
+    by_cases hji : j = st.i
+    · rw [genCollectGo]
+      simp only [hji, if_true]
+      exact ih I (fun k hk => hI k (List.mem_cons_of_mem _ hk)) cnt cf cm hk'
+    · rw [ag_genCollectGo_cons st j rest I (hI j (by simp)) hji]
+      have hkj : j ≠ k := by
+        rintro rfl
+        rcases hk with h | h
+        · exact h (by simp)
+        · exact hji h
+      obtain ⟨h1, h2⟩ := ih (setB I j (rcRest st.n (bsOf I j)))
+        (fun k hk => by simpa using hI k (List.mem_cons_of_mem _ hk))
+        (bumpL cnt (rcNews st.n (bsOf I j)))
+        (cf ++ ((rcNews st.n (bsOf I j)).filter (fun w => w = st.i)).map (fun _ => j))
+        (cm ++ List.replicate (rcS st.n (st.n + 1) 0 [] (bsOf I j)).2.1 j) hk'
+      refine ⟨by rw [h1, ag_bsOf_setB_ne _ _ _ _ hkj], ?_⟩
+      rw [h2]
+      simp [List.mem_append, List.mem_replicate, Ne.symm hkj]
+
+/-- step 1(c): a sender that is read -/
+theorem ag_genCollectGo_hit (st : GenSt) (k : Nat) (L : List Nat) (hL : L.Nodup) (I : Inbox)
+    (hI : ∀ j ∈ L, j < I.b.length) (cnt cf cm : List Nat) (hk : k ∈ L) (hki : k ≠ st.i) :
+    bsOf (genCollectGo st L I cnt cf cm).1 k = rcRest st.n (bsOf I k) ∧
+    (k ∈ (genCollectGo st L I cnt cf cm).2.2.2 ↔ k ∈ cm ∨ rcBad st.n (bsOf I k) = true) := by
+  induction L generalizing I cnt cf cm with
+  | nil => simp at hk
+  | cons j rest ih =>
+    have hnd := List.nodup_cons.mp hL
+    by_cases hji : j = st.i
+    · rw [genCollectGo]
+      simp only [hji, if_true]
+      have hk2 : k ∈ rest := by
+        rcases List.mem_cons.mp hk with h | h
+        · exact absurd (h.trans hji) hki
+        · exact h
+      exact ih hnd.2 I (fun k hk => hI k (List.mem_cons_of_mem _ hk)) cnt cf cm hk2
+    · rw [ag_genCollectGo_cons st j rest I (hI j (by simp)) hji]
+      have hI' : ∀ k ∈ rest, k < (setB I j (rcRest st.n (bsOf I j))).b.length :=
+        fun k hk => by simpa using hI k (List.mem_cons_of_mem _ hk)
+      rcases List.mem_cons.mp hk with h | h
+      · subst h
+        obtain ⟨h1, h2⟩ := ag_genCollectGo_frame st k rest _ hI'
+          (bumpL cnt (rcNews st.n (bsOf I k)))
+          (cf ++ ((rcNews st.n (bsOf I k)).filter (fun w => w = st.i)).map (fun _ => k))
+          (cm ++ List.replicate (rcS st.n (st.n + 1) 0 [] (bsOf I k)).2.1 k) (Or.inl hnd.1)
+        refine ⟨by rw [h1, ag_bsOf_setB_self _ _ _ (hI k (by simp))], ?_⟩
+        rw [h2]
+        simp [List.mem_append, List.mem_replicate, rcBad, Nat.pos_iff_ne_zero]
+      · have hkj : j ≠ k := by
+          rintro rfl
+          exact hnd.1 h
+        obtain ⟨h1, h2⟩ := ih hnd.2 (setB I j (rcRest st.n (bsOf I j))) hI'
+          (bumpL cnt (rcNews st.n (bsOf I j)))
+          (cf ++ ((rcNews st.n (bsOf I j)).filter (fun w => w = st.i)).map (fun _ => j))
+          (cm ++ List.replicate (rcS st.n (st.n + 1) 0 [] (bsOf I j)).2.1 j) h
+        rw [ag_bsOf_setB_ne _ _ _ _ hkj] at h1 h2
+        refine ⟨h1, ?_⟩
+        rw [h2]
+        simp [List.mem_append, List.mem_replicate, Ne.symm hkj]
+
+/-- step 1(c): the counters after the loop -/
+theorem ag_genCollectGo_cnt (st : GenSt) (L : List Nat) (hL : L.Nodup) (I : Inbox)
+    (hI : ∀ j ∈ L, j < I.b.length) (cnt cf cm : List Nat) (w : Nat) (hw : w < cnt.length) :
+    getN (genCollectGo st L I cnt cf cm).2.1 w =
+      getN cnt w + ((L.filter (fun x => x ≠ st.i)).map (fun x => (rcNews st.n (bsOf I x)).count w)).sum := by
+  induction L generalizing I cnt cf cm with
+  | nil => simp [genCollectGo]
+  | cons j rest ih =>
+    have hnd := List.nodup_cons.mp hL
+    by_cases hji : j = st.i
+    · rw [genCollectGo]
+      simp only [hji, if_true]
+      rw [ih hnd.2 I (fun k hk => hI k (List.mem_cons_of_mem _ hk)) cnt cf cm hw]
+      simp
+    · rw [ag_genCollectGo_cons st j rest I (hI j (by simp)) hji]
+      rw [ih hnd.2 (setB I j (rcRest st.n (bsOf I j)))
+        (fun k hk => by simpa using hI k (List.mem_cons_of_mem _ hk)) _ _ _ (by rw [ag_bumpL_length]; exact hw)]
+      rw [ag_bumpL_getN _ _ _ hw]
+      have hcongr : ((rest.filter (fun x => x ≠ st.i)).map
+            (fun x => (rcNews st.n (bsOf (setB I j (rcRest st.n (bsOf I j))) x)).count w)) =
+          ((rest.filter (fun x => x ≠ st.i)).map (fun x => (rcNews st.n (bsOf I x)).count w)) := by
+        apply List.map_congr_left
+        intro x hx
+        have hxr : x ∈ rest := (List.mem_filter.mp hx).1
+        have hjx : j ≠ x := by
+          rintro rfl
+          exact hnd.1 hxr
+        rw [ag_bsOf_setB_ne _ _ _ _ hjx]
+      rw [hcongr]
+      simp [hji]
+      omega
+
+/-! ### (6) the readers on the streams of a party that follows the protocol -/
+
+theorem ag_getUi_nat (j : Nat) (hj : j < 2 ^ 64) : getUi (j : Int) = j := by
+  unfold getUi
+  rw [Int.natAbs_natCast, Nat.mod_eq_of_lt hj]
+
+theorem ag_reS_honest (C : List Int) (hC : ∀ c ∈ C, Dkg.checkElement G c = true)
+    (rest : List (Tag × Int)) (acc : List Int) (c : Bool) :
+    reS G none C.length (C.map (fun v => ((none : Tag), v)) ++ rest) acc c = (c, rest, acc ++ C) := by
+  induction C generalizing acc with
+  | nil => simp [reS]
+  | cons v C ih =>
+    simp only [List.length_cons, List.map_cons, List.cons_append, reS, ag_popS_none_cons,
+      hC v (by simp), if_true]
+    rw [ih (fun c hc => hC c (List.mem_cons_of_mem _ hc))]
+    simp
+
+theorem ag_rcS_honest (n : Nat) (hn : n < 2 ^ 64) (D : List Nat) (f it : Nat) (dup : List Nat)
+    (hf : D.length + 1 ≤ f) (hit : it + D.length ≤ n) (hD : ∀ x ∈ D, x < n) (hnd : D.Nodup)
+    (hdup : ∀ x ∈ D, x ∉ dup) :
+    rcS n f it dup (D.map (fun (j : Nat) => ((none : Tag), (j : Int))) ++ [((none : Tag), (n : Int))]) = (D, 0, []) := by
+  induction D generalizing f it dup with
+  | nil =>
+    obtain ⟨f, rfl⟩ : ∃ f', f = f' + 1 := ⟨f - 1, by simp at hf; omega⟩
+    simp [rcS, ag_popS_none_cons, ag_getUi_nat n hn]
+  | cons x D ih =>
+    obtain ⟨f, rfl⟩ : ∃ f', f = f' + 1 := ⟨f - 1, by simp at hf; omega⟩
+    have hx : x < n := hD x (by simp)
+    have hxd : x ∉ dup := hdup x (by simp)
+    have hnd' := List.nodup_cons.mp hnd
+    simp only [List.length_cons] at hf hit
+    have hrec := ih f (it + 1) (dup ++ [x]) (by omega) (by omega)
+      (fun y hy => hD y (List.mem_cons_of_mem _ hy)) hnd'.2
+      (fun y hy => by
+        simp only [List.mem_append, List.mem_singleton, not_or]
+        exact ⟨hdup y (List.mem_cons_of_mem _ hy), fun e => hnd'.1 (e ▸ hy)⟩)
+    simp only [List.map_cons, List.cons_append, rcS, ag_popS_none_cons, ag_getUi_nat x (by omega)]
+    have h1 : (x < n ∧ ¬ dup.contains x = true) := ⟨hx, by simpa using hxd⟩
+    have h2 : it + 1 ≤ n := by omega
+    simp only [h1, if_true, h2, hrec]
+    simp
+
+/-- a well-formed answer list: one verifying triple per entry, then the end marker -/
+theorem ag_raS_honest (n : Nat) (hn : n < 2 ^ 64) (Cj : List Int) (σ τ : Nat → Int) (cfs : List Nat) (f : Nat)
+    (hf : cfs.length + 1 ≤ f)
+    (hcfs : ∀ it ∈ cfs, it < n ∧ absGe (σ it) G.q = false ∧ absGe (τ it) G.q = false ∧
+      ∃ l, pedF G (σ it) (τ it) = .ok l ∧ commitProd G.p (it + 1) Cj = .ok l) :
+    raS G n Cj f (cfs.flatMap (fun (it : Nat) => [((none : Tag), (it : Int)), (none, σ it), (none, τ it)]) ++
+      [((none : Tag), (n : Int))]) = .ok (0, []) := by
+  induction cfs generalizing f with
+  | nil =>
+    obtain ⟨f, rfl⟩ : ∃ f', f = f' + 1 := ⟨f - 1, by simp at hf; omega⟩
+    simp [raS, ag_popS_none_cons, ag_getUi_nat n hn]
+  | cons x cfs ih =>
+    obtain ⟨f, rfl⟩ : ∃ f', f = f' + 1 := ⟨f - 1, by simp at hf; omega⟩
+    obtain ⟨hx, h1, h2, l, hl, hr⟩ := hcfs x (by simp)
+    simp only [List.length_cons] at hf
+    have hrec := ih f (by omega) (fun y hy => hcfs y (List.mem_cons_of_mem _ hy))
+    have hnx : ¬ x ≥ n := by omega
+    simp only [List.flatMap_cons, List.cons_append, List.nil_append, raS, ag_popS_none_cons,
+      ag_getUi_nat x (by omega), hnx, if_false, h1, h2, Bool.false_eq_true, hl, hr, hrec]
+    simp
+
+/-! the sorted duplicate-free list of step 1(b) -/
+
+theorem ag_mem_sortUniq (n : Nat) (l : List Nat) (j : Nat) : j ∈ sortUniq n l ↔ j < n ∧ j ∈ l := by
+  simp [sortUniq, List.mem_filter]
+
+theorem ag_sortUniq_nodup (n : Nat) (l : List Nat) : (sortUniq n l).Nodup :=
+  List.Nodup.filter _ List.nodup_range
+
+theorem ag_sortUniq_length (n : Nat) (l : List Nat) : (sortUniq n l).length ≤ n := by
+  have := List.length_filter_le (fun j => l.contains j) (List.range n)
+  simpa [sortUniq] using this
+
+theorem ag_getN_map_range (n : Nat) (f : Nat → Nat) (j : Nat) (hj : j < n) :
+    getN ((List.range n).map f) j = f j := by
+  unfold getN
+  rw [List.getD_eq_getElem _ _ (by simpa using hj)]
+  simp
+
+theorem ag_getI_map_range (n : Nat) (f : Nat → Int) (j : Nat) (hj : j < n) :
+    getI ((List.range n).map f) j = f j := by
+  unfold getI
+  rw [List.getD_eq_getElem _ _ (by simpa using hj)]
+  simp
+
+/-! the coins of a party that follows the protocol -/
+
+def pinOf (ins : List PartyIn) (i : Nat) : PartyIn := ins.getD i ⟨[], [], {}, {}⟩
+def coefA (t : Nat) (pin : PartyIn) : List Int := (List.range (t + 1)).map (fun k => getI pin.strong (2 * k))
+def coefB (t : Nat) (pin : PartyIn) : List Int := (List.range (t + 1)).map (fun k => getI pin.strong (2 * k + 1))
+def comOf (G : Grp) (t : Nat) (pin : PartyIn) : List Int :=
+  match commitList G (coefA t pin) (coefB t pin) with
+  | .ok C => C
+  | .error _ => []
+def shA (G : Grp) (t : Nat) (pin : PartyIn) (x : Nat) : Int := evalShare G.q (coefA t pin) (x + 1)
+def shB (G : Grp) (t : Nat) (pin : PartyIn) (x : Nat) : Int := evalShare G.q (coefB t pin) (x + 1)
+
+theorem ag_coef_range (t : Nat) (pin : PartyIn) (hc : goodCoins G t pin) :
+    (∀ c ∈ coefA t pin, 0 ≤ c ∧ c < G.q) ∧ (∀ c ∈ coefB t pin, 0 ≤ c ∧ c < G.q) ∧
+    (coefA t pin).length = t + 1 ∧ (coefB t pin).length = t + 1 := by
+  obtain ⟨hlen, hr⟩ := hc
+  refine ⟨?_, ?_, by simp [coefA], by simp [coefB]⟩
+  · intro c hc
+    simp only [coefA, List.mem_map, List.mem_range] at hc
+    obtain ⟨k, hk, rfl⟩ := hc
+    unfold getI
+    rw [List.getD_eq_getElem _ _ (by omega)]
+    exact hr _ (List.getElem_mem _)
+  · intro c hc
+    simp only [coefB, List.mem_map, List.mem_range] at hc
+    obtain ⟨k, hk, rfl⟩ := hc
+    unfold getI
+    rw [List.getD_eq_getElem _ _ (by omega)]
+    exact hr _ (List.getElem_mem _)
+
+/-- `gaList`/`hbList` and the products of `genDeal` are the Pedersen commitments `commitList` -/
+theorem ag_ga_hb_commit (hG : ValidGrp G) (a b : List Int) (hlen : a.length = b.length)
+    (ha : ∀ c ∈ a, 0 ≤ c ∧ c < G.q) (hb : ∀ c ∈ b, 0 ≤ c ∧ c < G.q) :
+    ∃ ga hb, gaList G a = .ok ga ∧ hbList G b = .ok hb ∧
+      commitList G a b = .ok (List.zipWith (fun x y => x * y % G.p) ga hb) := by
+  induction a generalizing b with
+  | nil =>
+    cases b with
+    | nil => exact ⟨[], [], rfl, rfl, rfl⟩
+    | cons b0 bs => simp at hlen
+  | cons a0 as ih =>
+    cases b with
+    | nil => simp at hlen
+    | cons b0 bs =>
+      obtain ⟨x, hx, -⟩ := fspowm_g hG a0 (natAbs_lt_of_range (ha a0 (by simp)))
+      obtain ⟨y, hy, -⟩ := fspowm_h hG b0 (natAbs_lt_of_range (hb b0 (by simp)))
+      obtain ⟨ga, hb', h1, h2, h3⟩ := ih bs (by simpa using hlen)
+        (fun c hc => ha c (List.mem_cons_of_mem _ hc)) (fun c hc => hb c (List.mem_cons_of_mem _ hc))
+      refine ⟨x :: ga, y :: hb', ?_, ?_, ?_⟩
+      · simp only [gaList, hx, h1, bind, Except.bind, pure, Except.pure]
+      · simp only [hbList, hy, h2, bind, Except.bind, pure, Except.pure]
+      · simp only [commitList, pedS, hx, hy, h3, bind, Except.bind, pure, Except.pure,
+          List.zipWith_cons_cons]
+
+/-- what the commitments of a party with good coins satisfy -/
+theorem ag_comOf_spec (hG : ValidGrp G) (t : Nat) (pin : PartyIn) (hc : goodCoins G t pin) :
+    commitList G (coefA t pin) (coefB t pin) = .ok (comOf G t pin) ∧ (comOf G t pin).length = t + 1 ∧
+    (∀ c ∈ comOf G t pin, Dkg.checkElement G c = true) := by
+  have : Fact (Nat.Prime G.q.natAbs) := fact_q hG
+  obtain ⟨ha, hb, hla, hlb⟩ := ag_coef_range (G := G) t pin hc
+  obtain ⟨C, hC, hCl, hCv⟩ := commitList_val hG (coefA t pin) (coefB t pin) (hla.trans hlb.symm) ha hb
+  have hcom : comOf G t pin = C := by simp [comOf, hC]
+  rw [hcom]
+  refine ⟨hC, by rw [hCl, hla], ?_⟩
+  intro c hc
+  obtain ⟨k, hk, rfl⟩ := List.getElem_of_mem hc
+  obtain ⟨h0, h1, hv⟩ := hCv k (by omega)
+  rw [List.getD_eq_getElem _ _ hk] at h0 h1 hv
+  exact pl_checkElement_of_val hG _ _ _ h0 h1 hv
+
+theorem ag_sh_range (hG : ValidGrp G) (t : Nat) (pin : PartyIn) (x : Nat) :
+    absGe (shA G t pin x) G.q = false ∧ absGe (shB G t pin x) G.q = false ∧
+    (shA G t pin x).natAbs < G.q.natAbs ∧ (shB G t pin x).natAbs < G.q.natAbs := by
+  have h1 := evalShare_natAbs hG (coefA t pin) (x + 1)
+  have h2 := evalShare_natAbs hG (coefB t pin) (x + 1)
+  have h3 : ¬ G.q.natAbs ≤ (shA G t pin x).natAbs := by unfold shA; omega
+  have h4 : ¬ G.q.natAbs ≤ (shB G t pin x).natAbs := by unfold shB; omega
+  exact ⟨by simp [absGe, h3], by simp [absGe, h4], h1, h2⟩
+
 end Tmcg.DkgP
